@@ -72,7 +72,8 @@ def _run(F, R, ctx):
                    sample=True)
     # the context stays published while the thread waits: the retract comes after the wait
     for fn, st in pubs:
-        waits = fn.call_blocks(r"Atomic(Bool|<bool>)\}::load$") + fn.call_blocks(r"\{impl VmCore\}::park_thread_while_paused$")
+        helpers = lib.park_helpers(F)
+        waits = fn.call_blocks(r"Atomic(Bool|<bool>)\}::load$") + [i_ for i_, b_ in fn.calls() if b_["callee"] in helpers]
         dom = fn.dominators()
         for i, p in st:
             if p:
@@ -210,7 +211,7 @@ def park_loop_rule(F, R):
                        "from an earlier resume_threads) or spuriously, so the thread leaves its safepoint while the pause flag "
                        "is still set and executes instructions during a stop-the-world operation" % (fn.short(), b["line"]),
                        fn.loc(b["line"]), sample=True)
-    R.floor("C15.p", "park sites", n, 3)
+    R.floor("C15.p", "park sites", n, 1)
 
 
 def world_stop_wait_rule(F, R):
